@@ -118,11 +118,15 @@ def big_script(rng, elem, n):
     return lines
 
 
-def big_static_script(rng, elem, old_iface=False):
-    """static_vector<T,300>: sources of 0..600 elements, sizes and indices beyond the 8-bit boundary"""
-    N = 300
+def big_static_script(rng, elem, old_iface=False, N=300):
+    """static_vector<T,N> for N = 255, 256, 300 and 65535..65537: sources of more than N elements, sizes and indices beyond the 8- and
+    16-bit boundaries, filled to exactly N and one more"""
     lines = ["R svec %s %d" % (elem, N)]
-    if old_iface:
+    if N > 1000:      # fill through resize, then exactly to capacity and beyond with push_back / emplace_back
+        lines += ["Create 0", "Resize 0 %d" % (N - 2), "PushBack 0 5", "EmplaceBack 0 6", "PushBack 0 7", "EmplaceBack 0 8", "Resize 0 %d" % (N - 1), "PushBack 0 9", "PushBack 0 10"]
+        if not old_iface:
+            lines += ["Destroy 0", "CreateFrom 0 %s %d" % (fmt([rng.randrange(1, 100) for _ in range(N + 3)]), rng.choice([0, 2]))]
+    elif old_iface:
         lines += ["Create 0"] + ["PushBack 0 %d" % rng.randrange(1, 100) for _ in range(N + 5)]
     else:
         lines += ["CreateFrom 0 %s 0" % fmt([rng.randrange(1, 100) for _ in range(2 * N)])]
